@@ -37,6 +37,11 @@ Line protocol of property C20.
   blank ONLCR screen of `maxLine + 3` rows: `ok same=<0|1> live=<row>,<col>,<vis> buf=<row>,<col>,<vis>` or `panic`
   (buffered store).  When the hypotheses of `live_and_buffered_same_screen` hold the answer is the THEOREM's
   (`same=1`, both cursors on row `maxLine + 1`, column 0, visible).
+* `cli <noout> <csv hex> <snapshot> <stdout pipe|file|null|closed|pty> <rows> <cols> <history>` – the writer
+  `cmd/helpers.BuildVTermFromArguments` picks for these flags and this kind of stdout, what the two tests of
+  `termstate` say, and what the writer then writes for the history + `Close()` (start-up state of linetrim.go for that
+  stdout): `ok kind=<null|buffered|live> piped=<0|1> size=<ok>,<rows>,<cols> <b=<hex bytes> | - | scr=<rows> row= col= vis=>`
+  (bytes for pipe / file; for a pty the screen of `cols` x `rows` cells after the bytes as the tty passes them on: `\n` → `\r\n`) or `panic`.
 -/
 namespace Rare.Drv.C20
 open Rare Rare.C20 Rare.Proto
@@ -230,7 +235,58 @@ def handle0 : List String → String
     | _, _, _ => "bad-args"
   | _ => "bad-op"
 
+def stdoutOf (kind : String) (rows cols : Int) : Option StdoutInfo :=
+  if kind = "pipe" ∨ kind = "file" then
+    some { statOk := true, charDevice := false, isTerminal := false, sizeOk := false, width := 0, height := 0 }
+  else if kind = "null" then
+    some { statOk := true, charDevice := true, isTerminal := false, sizeOk := false, width := 0, height := 0 }
+  else if kind = "closed" then
+    some { statOk := false, charDevice := false, isTerminal := false, sizeOk := false, width := 0, height := 0 }
+  else if kind = "pty" then
+    some { statOk := true, charDevice := true, isTerminal := true, sizeOk := true, width := cols, height := rows }
+  else none
+
+def kindName : TermKind → String
+  | .null => "null"
+  | .buffered => "buffered"
+  | .live => "live"
+
+def cliAnswer (f : OutFlags) (kind : String) (o : StdoutInfo) (h : List Item) : String :=
+  let env := initEnv (getTermRowsCols o)
+  let c : Cfg := { E := handEsc, autoTrim := env.autoTrim, cols := env.cols }
+  let k := buildVTermFromArguments f o
+  -- a `Close()` in the middle of the history: the item runners (which `cliOutput` agrees with on plain histories)
+  let bytes : Except String Bytes :=
+    if hasClose h then
+      match k with
+      | .null => .ok []
+      | .live => let r1 := runItems c TermWriter.new h; .ok (r1.2 ++ (r1.1.close c).2)
+      | .buffered => (runB c VirtualTerm.new (h ++ [.c])).map (·.2)
+    else cliOutput handEsc f o (writesOfItems h)
+  match bytes with
+  | .error _ => "panic"
+  | .ok b =>
+    let size := match getTermRowsCols o with
+      | some (r, cc) => s!"1,{r},{cc}"
+      | none => "0,0,0"
+    let written :=
+      if kind = "pipe" ∨ kind = "file" then s!"b={Hex.enc b}"
+      else if kind = "pty" then
+        -- the tty's output processing (OPOST ONLCR) turns every `\n` into `\r\n`; the terminal sees the result
+        let b' : Bytes := b.flatMap fun x => if x = 10 then [13, 10] else [x]
+        let t := (Scr.blank o.width.toNat o.height.toNat false eaWidth).feedBytes b'
+        s!"scr={rowsOut t o.height.toNat} row={t.row} col={t.col} vis={b01 t.cursorVisible}"
+      else "-"
+    s!"ok kind={kindName k} piped={b01 (isPipedOutput o)} size={size} {written}"
+
 def handle : List String → String
+  | ["cli", no, csv, sn, kind, rows, cols, hs] =>
+    match bit no, Hex.dec csv, bit sn, rows.toInt?, cols.toInt?, parseHist hs with
+    | some noout, some csvB, some snapshot, some r, some c, some h =>
+      match stdoutOf kind r c with
+      | some o => cliAnswer { noout := noout, csv := csvB, snapshot := snapshot } kind o h
+      | none => "bad-args"
+    | _, _, _, _, _, _ => "bad-args"
   | ["termf", w, tr, hs] => handle0 ["term", w, tr, hs]
   | ["vtermf", hs] => handle0 ["vterm", hs]
   | args => handle0 args
